@@ -9,10 +9,13 @@ import (
 	"bytes"
 	"encoding/json"
 	"fmt"
+	"math/rand"
 	"os"
 	"os/exec"
 	"path/filepath"
 	"strings"
+	"sync"
+	"sync/atomic"
 	"time"
 
 	"github.com/idena-network/idena-go/blockchain/types"
@@ -23,7 +26,7 @@ import (
 	"verifharness/internal/chainfx"
 )
 
-var floodKinds = []string{"one-sender-future-nonces", "one-sender-sequential-nonces", "many-senders-pending"}
+var floodKinds = []string{"one-sender-future-nonces", "one-sender-sequential-nonces", "many-senders-pending", "concurrent-proposals"}
 
 // runFlood executes one flood on the fixture (in the child process). Mode = number of transactions / senders.
 func runFlood(fx *fixture, cs c12case) string {
@@ -97,10 +100,86 @@ func runFlood(fx *fixture, cs c12case) string {
 			deliver(tx)
 		}
 		return fmt.Sprintf("funded=%d acc=%d rej=%d", funded, acc, rej)
+	case "concurrent-proposals":
+		return concurrentProposals(fx, cs)
 	default:
 		return "bad-entry"
 	}
 	return fmt.Sprintf("acc=%d rej=%d", acc, rej)
+}
+
+// concurrentProposals: 12 connected peers, each with its own reader goroutine (as in the real node), deliver ProposeProof
+// and ProposeBlock frames of the current and the next round — junk with valid signatures, which is refused only after the
+// comparison with the round's best proof — through the real handler, while the node side records best proofs of the round
+// (setBestHash, what a valid proposal does) and completes rounds (CompleteRound).  Mode = duration in milliseconds.
+// Unsynchronised access to the shared maps ends in a Go runtime fatal error, i.e. in the death of this child process.
+func concurrentProposals(fx *fixture, cs c12case) string {
+	n := fx.n
+	head := n.Chain.Head.Height()
+	base := fx.ownProposal()
+	if !usableProposal(base) {
+		return "fixture:no-proposal"
+	}
+	deadline := time.Now().Add(time.Duration(cs.Mode) * time.Millisecond)
+	var wg sync.WaitGroup
+	var handled, writes uint64
+	for i := 0; i < 12; i++ {
+		g := fx.gossip.AddPeer(fmt.Sprint("flood-peer-", i))
+		key := chainfx.DetKey(fx.seed, 7000+i)
+		r := rand.New(rand.NewSource(fx.seed*131 + int64(i)))
+		wg.Add(1)
+		go func() {
+			defer wg.Done()
+			for k := 0; time.Now().Before(deadline); k++ {
+				round := head + 1
+				if k%5 == 4 {
+					round = head + 2
+				}
+				var frame []byte
+				if k%8 == 7 {
+					hd := cloneProposed(base.Header.ProposedHeader)
+					hd.ProposerPubKey = crypto.FromECDSAPub(&key.PublicKey)
+					hd.Height = round
+					r.Read(hd.TxHash[:])
+					p := &types.BlockProposal{Block: &types.Block{Header: &types.Header{ProposedHeader: hd}, Body: &types.Body{}}, Proof: make([]byte, 129)}
+					r.Read(p.Proof)
+					signProposal(p, key)
+					frame = protocol.VerifC12WrapMsg(protocol.ProposeBlock, mustBytes(p.ToBytes()), false)
+				} else {
+					pp := &types.ProofProposal{Proof: make([]byte, 129), Round: round}
+					r.Read(pp.Proof)
+					if k%16 == 0 {
+						pp.Proof = base.Proof // the one honest proof of the round (accepted once, then a duplicate)
+					}
+					hh := crypto.SignatureHash(pp)
+					pp.Signature, _ = crypto.Sign(hh[:], key)
+					frame = protocol.VerifC12WrapMsg(protocol.ProposeProof, mustBytes(pp.ToBytes()), false)
+				}
+				g.Handle(frame)
+				atomic.AddUint64(&handled, 1)
+			}
+		}()
+	}
+	wg.Add(1)
+	go func() { // the node side: best proofs of valid proposals, finished rounds
+		defer wg.Done()
+		r := rand.New(rand.NewSource(fx.seed*977 + 5))
+		pub := crypto.FromECDSAPub(&fx.w.Keys[0].PublicKey)
+		for k := 0; time.Now().Before(deadline); k++ {
+			var h common.Hash
+			r.Read(h[:])
+			fx.proposals.VerifC12SetBestHash(head+1+uint64(k%2), h, pub, 1+k%3)
+			if k%4 == 3 {
+				fx.proposals.CompleteRound(head + 2)
+			}
+			atomic.AddUint64(&writes, 1)
+			if k%64 == 0 {
+				time.Sleep(50 * time.Microsecond)
+			}
+		}
+	}()
+	wg.Wait()
+	return fmt.Sprintf("handled=%v writes=%v", handled > 100, writes > 100)
 }
 
 // floodChild runs one flood case in a child process and reports what happened to it.
@@ -161,7 +240,11 @@ func (G *gen) floodChild(cs c12case) error {
 					break
 				}
 			}
-			G.c.Fail("C12:node-killed:newTx-flood:"+cs.Entry, fmt.Sprintf("the process handling the messages died: %q (first repository frame: %s), state %s", killed, site, cs.State), cs)
+			sig := "C12:node-killed:newTx-flood:" + cs.Entry
+			if cs.Entry == "concurrent-proposals" {
+				sig = "C12:node-died-under-concurrent-proposals"
+			}
+			G.c.Fail(sig, fmt.Sprintf("the process handling the messages died: %q (first repository frame: %s), state %s", killed, site, cs.State), cs)
 			return nil
 		}
 		tail := errText
@@ -195,8 +278,14 @@ func (G *gen) floodChild(cs c12case) error {
 func (G *gen) floods(seed int64) error {
 	for _, k := range floodKinds {
 		mode := 70
-		if k == "many-senders-pending" {
+		switch k {
+		case "many-senders-pending":
 			mode = 262
+		case "concurrent-proposals":
+			mode = 3000 // milliseconds
+			if G.c.Tier == "thorough" {
+				mode = 20000
+			}
 		}
 		cs := c12case{Section: "flood", State: "populated", Seed: seed, Entry: k, Mode: mode}
 		if err := G.floodChild(cs); err != nil {
